@@ -28,7 +28,7 @@ Definition expected_shape_table : list (list byte * list byte) :=
    (* testscript/testscript.go:TestScript.execBackground *) ([x74; x65; x73; x74; x73; x63; x72; x69; x70; x74; x2f; x74; x65; x73; x74; x73; x63; x72; x69; x70; x74; x2e; x67; x6f; x3a; x54; x65; x73; x74; x53; x63; x72; x69; x70; x74; x2e; x65; x78; x65; x63; x42; x61; x63; x6b; x67; x72; x6f; x75; x6e; x64],
       [x35; x61; x31; x32; x39; x64; x61; x66; x66; x62; x64; x38; x39; x66; x33; x31; x33; x33; x62; x32; x34; x38; x37; x36; x31; x32; x38; x38; x33; x35; x66; x64; x36; x62; x36; x39; x63; x37; x31; x63; x39; x62; x65; x32; x65; x66; x39; x64; x66; x64; x31; x35; x31; x30; x36; x30; x37; x30; x30; x65; x32; x61; x38; x33]);
    (* testscript/testscript.go:TestScript.run *) ([x74; x65; x73; x74; x73; x63; x72; x69; x70; x74; x2f; x74; x65; x73; x74; x73; x63; x72; x69; x70; x74; x2e; x67; x6f; x3a; x54; x65; x73; x74; x53; x63; x72; x69; x70; x74; x2e; x72; x75; x6e],
-      [x63; x64; x66; x65; x31; x37; x65; x62; x31; x65; x30; x36; x33; x31; x32; x62; x65; x61; x62; x64; x38; x34; x63; x36; x36; x34; x66; x64; x37; x30; x62; x30; x32; x33; x64; x61; x36; x62; x36; x63; x30; x34; x31; x39; x35; x31; x31; x32; x62; x65; x32; x65; x61; x38; x35; x36; x65; x31; x31; x33; x65; x39; x66; x63]);
+      [x34; x32; x32; x34; x66; x63; x66; x65; x37; x34; x31; x38; x32; x35; x65; x61; x33; x65; x35; x36; x66; x35; x65; x63; x36; x65; x61; x36; x33; x31; x30; x31; x66; x36; x34; x36; x33; x66; x62; x34; x64; x30; x63; x63; x32; x31; x31; x61; x63; x66; x64; x39; x64; x64; x38; x61; x37; x38; x63; x35; x33; x64; x36; x37]);
    (* testscript/testscript.go:interruptProcess *) ([x74; x65; x73; x74; x73; x63; x72; x69; x70; x74; x2f; x74; x65; x73; x74; x73; x63; x72; x69; x70; x74; x2e; x67; x6f; x3a; x69; x6e; x74; x65; x72; x72; x75; x70; x74; x50; x72; x6f; x63; x65; x73; x73],
       [x63; x31; x66; x64; x39; x36; x66; x65; x35; x63; x62; x65; x63; x35; x32; x33; x36; x63; x64; x37; x63; x66; x61; x37; x63; x64; x63; x38; x66; x34; x32; x35; x61; x39; x34; x35; x63; x33; x35; x30; x36; x35; x38; x38; x35; x39; x61; x36; x61; x63; x38; x38; x38; x63; x64; x63; x31; x37; x61; x30; x31; x33; x32; x33]);
    (* testscript/testscript.go:waitOrStop *) ([x74; x65; x73; x74; x73; x63; x72; x69; x70; x74; x2f; x74; x65; x73; x74; x73; x63; x72; x69; x70; x74; x2e; x67; x6f; x3a; x77; x61; x69; x74; x4f; x72; x53; x74; x6f; x70],
